@@ -230,6 +230,7 @@ def rule_SG1(ctx, rep):
 
 # ---------------------------------------------------------------------------------- AW1
 RANDOM_SOURCES = ('_random', '_randoms', '_np_randoms')
+FUTURE_FOR_FIELDS = ('random_bits', 'np_random_bits')      # declared returnType(Future) for a field type, with or without PRSS
 SECTYPE_CTORS = ('SecFxp', 'SecInt', 'SecFld', 'SecFlt')
 
 
@@ -248,18 +249,25 @@ def rule_AW1(ctx, rep, scope=None):
             continue
         pm = None
         for c in iter_nodes(fn.node):
-            if not (isinstance(c, ast.Call) and isinstance(c.func, ast.Attribute) and c.func.attr in RANDOM_SOURCES and norm(c.func.value) == 'self' and c.args):
+            if not (isinstance(c, ast.Call) and isinstance(c.func, ast.Attribute) and c.func.attr in RANDOM_SOURCES + FUTURE_FOR_FIELDS and norm(c.func.value) == 'self' and c.args):
                 continue
-            if scope == 'np' and c.func.attr != '_np_randoms':
+            always = c.func.attr in FUTURE_FOR_FIELDS
+            if scope == 'np' and not c.func.attr.startswith(('_np_', 'np_')):
                 continue
-            if scope == 'scalar' and c.func.attr == '_np_randoms':
+            if scope == 'scalar' and c.func.attr.startswith(('_np_', 'np_')):
                 continue
-            if fn.qualname.split('.')[-1] in RANDOM_SOURCES:
+            if fn.qualname.split('.')[-1] in RANDOM_SOURCES + FUTURE_FOR_FIELDS + ('random_bit',):
                 continue                      # _random wraps _randoms and tests for the Future itself
             pm = pm or parents(fn.node)
             t0 = sem.expand(fn, c.args[0], c, pm)
             if isinstance(t0, ast.Call) and attr_tail(t0.func) in SECTYPE_CTORS:
                 continue                      # a secure type: placeholders of that type are returned in both modes
+            if always and not norm(t0).endswith('.field'):
+                continue                      # only a type that is certainly a field makes the result certainly a Future
+            if always and isinstance(pm.get(id(c)), ast.Await):
+                n += 1
+                rep.ok('AW1', fn, c, f'the Future returned by self.{c.func.attr} for a field type is awaited where it is created')
+                continue
             n += 1
             par = pm.get(id(c))
             if not (isinstance(par, ast.Assign) and par.value is c and len(par.targets) == 1 and isinstance(par.targets[0], ast.Name)):
@@ -278,11 +286,11 @@ def rule_AW1(ctx, rep, scope=None):
                 # the await itself: `await r`, `await self.gather(.., r, ..)`
                 awaited = isinstance(up, ast.Await) or (isinstance(up, ast.Call) and attr_tail(up.func) == 'gather' and isinstance(pm.get(id(up)), ast.Await))
                 cx = cond.context(fn, u, pm)
-                excluded = any('no_prss' in a for a in cond.refuted(cx))
+                excluded = not always and any('no_prss' in a for a in cond.refuted(cx))
                 # a later definition `r = await r` under no_prss in between takes over on the no_prss paths
-                taken_over = any(d[0] is not par and isinstance(d[0], ast.stmt) and astq.position(par) < astq.position(d[0]) < astq.position(u)
-                                 and any('no_prss' in a for a in cond.implied(cond.context(fn, d[0], pm)))
-                                 and any(isinstance(x, ast.Await) for x in ast.walk(d[0])) for d in ds)
+                taken_over = not always and any(d[0] is not par and isinstance(d[0], ast.stmt) and astq.position(par) < astq.position(d[0]) < astq.position(u)
+                                                and any('no_prss' in a for a in cond.implied(cond.context(fn, d[0], pm)))
+                                                and any(isinstance(x, ast.Await) for x in ast.walk(d[0])) for d in ds)
                 if not (awaited or excluded or taken_over):
                     bad = u
                     break
@@ -291,5 +299,5 @@ def rule_AW1(ctx, rep, scope=None):
                 rep.bad('AW1', fn, c, f'{r} = self.{c.func.attr}({norm(c.args[0])}, ..) is used in `{norm(st)[:70]}` before it is awaited on the paths with options.no_prss: '
                         'without PRSS it is a Future')
             else:
-                rep.ok('AW1', fn, c, f'{r} is awaited under options.no_prss before its value is used')
+                rep.ok('AW1', fn, c, f'{r} is awaited {"" if always else "under options.no_prss "}before its value is used')
     return n
